@@ -280,6 +280,9 @@ func (b *byzActor) hostileAct() {
 	}
 	h := live[cl.sched.Int(len(live))]
 	rs := h.roundState()
+	if b.withholdScript(live) {
+		return
+	}
 	m := b.genHostile(h, rs)
 	if m == nil {
 		return
@@ -337,3 +340,92 @@ func totalAlloc() uint64 {
 	runtime.ReadMemStats(&m)
 	return m.TotalAlloc
 }
+
+// withholdScript: the hostile peer is a validator and, at its proposer turns,
+// a functioning but selective proposer. It proposes a valid block to everyone
+// except one victim and votes for it, so the others commit it and the victim
+// learns the decision from +2/3 precommits before it ever saw the proposal
+// (commit step, waiting for the block's parts). Then it sends the victim a
+// second, correctly signed proposal of the same round for another block.
+// A correct node ignores proposals in the commit step and goes on to fetch
+// and commit the decided block; the liveness oracle judges the outcome.
+func (b *byzActor) withholdScript(live []*Node) bool {
+	cl := b.cl
+	// phase 2: a victim is waiting in the commit step without the block
+	if b.wh != nil {
+		v := cl.nodes[b.wh.victim]
+		if v.alive && !v.failed {
+			rs := v.roundState()
+			if rs.Height == b.wh.H && rs.Step == cstypes.RoundStepCommit && rs.ProposalBlock == nil && !b.wh.sent {
+				b.wh.sent = true
+				psh := types.PartSetHeader{Total: 3, Hash: cl.c.Tape.Fork("hostile").Bytes(20)}
+				if p := b.signProposal(b.wh.H, rs.Round, psh, -1, types.BlockID{}); p != nil {
+					cl.c.Fault("hostile-second-proposal-in-commit-step")
+					cl.c.Probe("victim-in-commit-step-without-block")
+					cl.hostileAt = cl.now
+					cl.send(b.n.idx, v.idx, &cs.ProposalMessage{Proposal: p}, "hostile-proposal2")
+				}
+				return true
+			}
+			if rs.Height > b.wh.H {
+				b.wh = nil
+			}
+		} else {
+			b.wh = nil
+		}
+	}
+	if b.wh != nil || len(live) < 3 {
+		return false
+	}
+	// phase 1: at a proposer turn, propose to all but the victim
+	for _, h := range live {
+		rs := h.roundState()
+		if rs.Step > cstypes.RoundStepPropose || rs.Proposal != nil || !bytesEqual(rs.Validators.GetProposer().Address, b.n.key.Address()) {
+			continue
+		}
+		key := fmt.Sprintf("wh|%d|%d", rs.Height, rs.Round)
+		if b.done[key] {
+			continue
+		}
+		b.done[key] = true
+		if !cl.sched.Bool(1, 2) {
+			continue
+		}
+		block, _ := b.buildBlock(h, rs, 0)
+		if block == nil {
+			continue
+		}
+		victim := live[cl.sched.Int(len(live))]
+		b.wh = &withhold{H: rs.Height, R: rs.Round, victim: victim.idx}
+		cl.c.Fault("hostile-proposal-withheld-from-victim")
+		var id types.BlockID
+		for _, n := range live {
+			if n.idx != victim.idx {
+				id = b.sendBlock(n, rs.Height, rs.Round, block, "hostile-block")
+			}
+		}
+		idx, _ := rs.Validators.GetByAddress(b.n.key.Address())
+		size := rs.Validators.Size()
+		H, R := rs.Height, rs.Round
+		cl.push(&event{at: cl.now + 20*time.Millisecond, kind: evByz, fn: func() {
+			for _, n := range cl.honest() {
+				for _, typ := range []byte{types.VoteTypePrevote, types.VoteTypePrecommit} {
+					if v := b.signVote(H, R, typ, id, size, idx); v != nil {
+						cl.send(b.n.idx, n.idx, voteMsg(v), "hostile-vote")
+					}
+				}
+			}
+		}})
+		return true
+	}
+	return false
+}
+
+type withhold struct {
+	H      uint64
+	R      int
+	victim int
+	sent   bool
+}
+
+func bytesEqual(a, b []byte) bool { return string(a) == string(b) }
